@@ -5,6 +5,7 @@
    carry the witnesses, each replayed on the real verif::merge_all and on compiled generated code):
      C09_merge_sound : forall a b m v, merge D f a b = MOk m -> valid a v -> valid b v -> valid m v
      C09_merge_never : forall a b v,   merge D f a b = MNever -> ~ (valid a v /\ valid b v)
+   NOT proved (no refutation known on the current tree; before fix 884aa7b both were refuted through `roughly`):
      C09_merge_exact : forall a b m v, merge D f a b = MOk m -> valid m v -> valid a v /\ valid b v
      C09_merge_all_perm : Permutation L L' -> valid (merge_all L) v = valid (merge_all L') v
    What is proved for ALL schemas of a fragment and ALL instances is `_partial`: the scalar fragment
@@ -91,15 +92,19 @@ Theorem C09_merge_never_refuted_untyped :
   exists a b v, merge [] 5 a b = MNever /\ Vd [] 0 a v = true /\ Vd [] 0 b v = true.
 Proof. exact never_refuted_untyped. Qed.
 
-(* finding C09-F2 *)
-Theorem C09_merge_exact_refuted :
-  exists D a b m v, merge D 5 a b = MOk m /\ Vd D 3 m v = true /\ Vd D 3 b v = false.
-Proof. exact exact_refuted_roughly. Qed.
+(* former finding C09-F2, fixed by /repo 884aa7b: regression statements on the former witness *)
+Theorem C09_F2_witness_keeps_bounds :
+  exists m, merge w_defs 5 (SRef w_A) w_fixed = MOk m /\ Vd w_defs 3 m w_abc = false.
+Proof. exact f2_witness_keeps_bounds. Qed.
 
-Theorem C09_merge_all_perm_refuted :
-  exists D L L' m m' v, Permutation L L' /\ merge_all D 8 L = MOk m /\ merge_all D 8 L' = MOk m'
-                        /\ Vd D 3 m v = true /\ Vd D 3 m' v = false.
-Proof. exact merge_all_perm_refuted. Qed.
+Theorem C09_F2_witness_orders_agree :
+  exists m m', Permutation [SRef w_A; w_fixed; w_narrow] ([w_fixed; w_narrow] ++ [SRef w_A])
+               /\ merge_all w_defs 8 [SRef w_A; w_fixed; w_narrow] = MOk m
+               /\ merge_all w_defs 8 ([w_fixed; w_narrow] ++ [SRef w_A]) = MOk m'
+               /\ Vd w_defs 3 m w_abc = false /\ Vd w_defs 3 m' w_abc = false
+               /\ Vd w_defs 3 m (JArr [JStr (ulit "a"); JStr (ulit "b")]) = true
+               /\ Vd w_defs 3 m' (JArr [JStr (ulit "a"); JStr (ulit "b")]) = true.
+Proof. exact f2_witness_orders_agree. Qed.
 
 (* ---------------------------------------------------------------- never => uninhabited generated type *)
 Theorem C09_uninhabited_sound :
